@@ -11,8 +11,9 @@ Two fail-closed emitters for rpylib/model/utils.py:
 
   heap_program  : the BODIES of calibrate_model_parameter (with its inner calibration_fun), calibrate_model_parameter_to_atm_call
                   and run_default_calibration, statement by statement, as a program over the heap operations of
-                  coq/Model/ParamsHeap.v (op_deepcopy / op_setattr / op_initialisation / op_price / op_brentq, obind = exception
-                  propagation).  Every statement must match one of the patterns below (on ast.unparse text); anything else --
+                  coq/Model/ParamsHeap.v (op_deepcopy / op_setattr / op_initialisation / op_model = the exponential model's
+                  constructor, which may refuse the parameters / op_price / op_brentq_ab = f(a), f(b), zero end, sign test -> ValueError,
+                  further trial values; obind = exception propagation).  Every statement must match one of the patterns below (on ast.unparse text); anything else --
                   a dropped deepcopy, a swapped setattr/initialisation, a model built on another object, a keyword that is no
                   longer forwarded (bs_sigma), an extra statement -- is refused or yields a different program, which breaks the
                   proof  gen_* = hand model  in Proofs/C20_Calib.v.
@@ -150,7 +151,8 @@ def _prog(stmts, env, kind, inner_out):
         if m[2] not in env.addrs or ("model_cls" in t and not env.model_cls):
             raise Unsupported(f"{kind}: model built on an unknown object: {t[:80]}")
         env.models.add(m[1])
-        return f"let {m[1]} := {m[2]} in\n  {cont()}"
+        # the constructor of the exponential model may refuse the parameters object (ValueError): op_model -> None
+        return f"obind (op_model st {m[2]}) (fun {m[1]} =>\n  {cont()})"
     m = re.fullmatch(r"(\w+) = COSPricer\((\w+)\)\.price\(product=product\)", t)
     if m and kind == "objective":
         if m[2] not in env.models:
@@ -180,7 +182,7 @@ def _prog(stmts, env, kind, inner_out):
         return cont()
     if t in ("a, b = parameter_interval", "(a, b) = parameter_interval") and kind == "calibrate":
         env.interval = True
-        return cont()
+        return f"let '(a, b) := parameter_interval in\n  {cont()}"
     if isinstance(s, ast.Try) and kind == "calibrate":
         if not env.inner or not env.interval or s.orelse or s.finalbody or len(s.body) != 1 or len(s.handlers) != 1:
             raise Unsupported(f"{kind}: try statement of an unexpected shape")
@@ -194,7 +196,9 @@ def _prog(stmts, env, kind, inner_out):
         env.result = m[1]
         if len(rest) != 1 or _u(rest[0]) != f"return {m[1]}":
             raise Unsupported(f"{kind}: brentq's value must be returned as is")
-        return f"op_brentq (gen_calibration_fun {env.inner[1]} parameter market_price) st xs"
+        # brentq evaluates f(a), f(b), returns at a zero end, raises ValueError on equal strict signs (re-raised as ValueError by the
+        # handler checked above), then iterates over trial values of its choosing: op_brentq_ab
+        return f"op_brentq_ab (gen_calibration_fun {env.inner[1]} parameter market_price) st a b xs"
     if t == "def_calibration = default_calibration[model.model_type]" and kind == "default":
         env.field_exprs.add("def_calibration.parameter")
         return cont()
@@ -204,7 +208,7 @@ def _prog(stmts, env, kind, inner_out):
         if "def_calibration.parameter" not in env.field_exprs:
             raise Unsupported(f"{kind}: def_calibration used before it is looked up")
         env.values.add(m[1])
-        return (f"obind (gen_calibrate_model_parameter st model_parameters parameter market_price xs) (fun st =>\n  "
+        return (f"obind (gen_calibrate_model_parameter st model_parameters parameter parameter_interval market_price xs) (fun st =>\n  "
                 f"let {m[1]} := brentq_value in\n  {cont()})")
     m = re.fullmatch(r"return (\w+)", t)
     if m and kind == "default":
@@ -230,8 +234,10 @@ def _sig(node, want):
         raise Unsupported(f"{node.name}: signature changed: {got} (expected {want})")
 
 
-CLS_ARGS = "Rec Field set initialisation price dflt"     # the Section variables of the generated module (specs/C20.py)
-NOTATIONS = "".join(f"Notation {op} := (ParamsHeap.{op} {CLS_ARGS}).\n" for op in ("op_deepcopy", "op_setattr", "op_initialisation", "op_price", "op_brentq"))
+CLS_ARGS = "Rec Field set initialisation price dflt model_ok"     # the Section variables of the generated module (specs/C20.py)
+OLD_ARGS = "Rec Field set initialisation price dflt"
+NOTATIONS = ("".join(f"Notation {op} := (ParamsHeap.{op} {OLD_ARGS}).\n" for op in ("op_deepcopy", "op_setattr", "op_initialisation", "op_price"))
+             + "".join(f"Notation {op} := (ParamsHeap.{op} {CLS_ARGS}).\n" for op in ("op_model", "op_brentq_ab")))
 
 
 def heap_program(tree, spec, fn) -> str:
@@ -251,9 +257,9 @@ def heap_program(tree, spec, fn) -> str:
         raise Unsupported("heap_program: the Section variables of the module must be " + CLS_ARGS)
     out = [NOTATIONS]
     body = _prog(_body(cal), _Env({"parameter"}), "calibrate", out)
-    out.append("Definition gen_calibrate_model_parameter (st : Heap Rec) (model_parameters : nat) (parameter : Field) (market_price : Q) "
+    out.append("Definition gen_calibrate_model_parameter (st : Heap Rec) (model_parameters : nat) (parameter : Field) (parameter_interval : Q * Q) (market_price : Q) "
                f"(xs : list Q) : option (Heap Rec) :=\n  {body}.\n")
     body = _prog(_body(dfl), _Env(set()), "default", out)
-    out.append("Definition gen_run_default_calibration (st : Heap Rec) (model_parameters : nat) (parameter : Field) (market_price : Q) "
+    out.append("Definition gen_run_default_calibration (st : Heap Rec) (model_parameters : nat) (parameter : Field) (parameter_interval : Q * Q) (market_price : Q) "
                f"(xs : list Q) (brentq_value : Q) : option (Heap Rec * nat) :=\n  {body}.\n")
     return "\n".join(out)
